@@ -1,0 +1,33 @@
+//go:build verif
+// +build verif
+
+package partition
+
+import (
+	"context"
+
+	"github.com/logrange/logrange/pkg/model"
+	"github.com/logrange/range/pkg/records/chunk"
+	"github.com/logrange/range/pkg/records/journal"
+)
+
+// VC16Window is the record window [MinPos..MaxPos] a fresh chunk selector of the time range computes for a chunk
+type VC16Window struct {
+	Id     chunk.Id
+	MinPos uint32
+	MaxPos uint32
+}
+
+// VC16Windows returns, for every chunk of the journal in order, the window a fresh chkSelector built the way
+// NewJIterator builds it (the service's TsIndexer and index rebuilder) computes for the range
+func VC16Windows(ctx context.Context, s *Service, tmRange model.TimeRange, jrnl journal.Journal) ([]VC16Window, error) {
+	ws, err := VC02Windows(ctx, tmRange, jrnl, s.GetTsIndexer(), s.GetTmIndexRebuilder())
+	if err != nil {
+		return nil, err
+	}
+	res := make([]VC16Window, len(ws))
+	for i, w := range ws {
+		res[i] = VC16Window{w.Cid, w.MinPos, w.MaxPos}
+	}
+	return res, nil
+}
